@@ -41,8 +41,9 @@ RULE = (
     "max-1, value+-1, its own offset, another table's offset, file size} (enumerated), any aligned word of the metadata area "
     "set to such values, truncation at structure boundaries +-1 and at random points, random multi-byte corruption, splices, "
     "crafted cycles (Parallels ParentGUID cycles of length 1..4 incl. cycles the start only leads into, Hyper-V object tables "
-    "referencing themselves / each other, key-table parent loops, QCOW2 L1->header, VHDX region->itself) and decompression "
-    "bombs (QCOW2 cluster / VMDK grain whose deflate stream expands to >= 64 MiB). The driver opens the input and touches the "
+    "referencing themselves / each other at aligned and unaligned offsets, key-table parent loops, QCOW2 L1->header, VHDX region->itself) and decompression "
+    "bombs (QCOW2 cluster / VMDK grain whose deflate stream expands to >= 64 MiB), and a sweep of one request per grain over a "
+    "stream-optimised VMDK of 48 compressed 4 MiB grains (memory must follow the request, not the history). The driver opens the input and touches the "
     "public surface (size, 64 KiB reads at start/middle/tail, snapshots, as_dict, disks, members + extract, decrypt, unlock). "
     "Oracle: it returns or raises (any exception) within 10 s of CPU time and with a tracemalloc peak <= 64 MiB + 8 x (input + "
     "requested bytes + allocation unit of the seed). Non-trivial = the mutated input differs from its seed and still passes "
@@ -211,6 +212,26 @@ def seeds():
     return s
 
 
+@functools.lru_cache(maxsize=None)
+def biggrain_vmdk(ngrains=48, grain=8192):
+    """A stream-optimised VMDK of a few hundred KiB with `ngrains` compressed 4 MiB grains (a valid grain size), each a run of
+    one byte value: what a reader keeps around after serving earlier requests shows up in the peak of a sweep over it."""
+    out = bytearray(512)
+    gt = []
+    for i in range(ngrains):
+        comp = zlib.compress(bytes([i + 1]) * (grain * 512), 1)
+        gt.append(len(out) // 512)
+        out += struct.pack("<QI", i * grain, len(comp)) + comp
+        out += bytes(-len(out) % 512)
+    gt_sector = len(out) // 512
+    out += struct.pack(f"<{len(gt)}I", *gt).ljust(512 * 4, b"\x00")
+    gd_sector = len(out) // 512
+    out += struct.pack("<I", gt_sector).ljust(512, b"\x00")
+    spec = {"capacity": ngrains * grain, "grain": grain, "gtes": 512, "compressed": True, "embedded_lba": True, "version": 3}
+    out[:512] = bvmdk.kdmv_header(spec, gd_sector, 0, 1, 0, 0)
+    return bytes(out)
+
+
 SEED_NAMES = ["qcow2", "qcow2-v2", "qcow2-extl2", "qcow2-snap", "qcow2-bomb", "vmdk-kdmv", "vmdk-stream", "vmdk-cowd", "vmdk-sesparse", "vmdk-bomb",
               "vmdk-descriptor", "vhdx", "vhd-dyn", "vhd-fixed", "vdi", "hds-v1", "hds-v2", "hyperv", "envelope", "keystore", "vmx", "vmx-encrypted",
               "vmtar", "vmtar-gz", "hdd-descriptor"]
@@ -248,6 +269,9 @@ def exhaustive(tier):
             yield {"seed": "hdd-descriptor", "ops": [], "cycle": n, "lead_in": lead}
     for variant in ("self", "mutual", "chain-back"):
         yield {"seed": "hyperv", "ops": [], "hv_cycle": variant}
+        # the same references a little off the data alignment (a reader that rounds them lands on the same tables)
+        for delta in (-0xFFF, -0x800, -1, 1, 0x7FF, 0xFFF):
+            yield {"seed": "hyperv", "ops": [], "hv_cycle": variant, "hv_delta": delta}
     for variant in ("parent-self", "parent-mutual"):
         yield {"seed": "hyperv", "ops": [], "hv_cycle": variant}
     # a huge allocation unit together with a huge disk size: zero fills must still be sized by the request
@@ -283,6 +307,8 @@ def exhaustive(tier):
             yield {"seed": sname, "ops": ops[:1] + extra, "field": "big-unit-holes"}
     yield {"seed": "qcow2-bomb", "ops": []}
     yield {"seed": "vmdk-bomb", "ops": []}
+    # memory must follow the request at hand, not the number of earlier requests: sweep over many large compressed grains
+    yield {"seed": "vmdk-stream", "ops": [], "craft": "biggrain-sweep"}
     yield {"seed": "qcow2", "ops": [], "craft": "l1-to-header"}
     yield {"seed": "vhdx", "ops": [], "craft": "region-to-itself"}
 
@@ -383,6 +409,10 @@ def drive(kind, data: bytes, spec):
         v = VMDK(core_track(data))
         stage = "opened"
         touch_stream(v)
+        if spec.get("craft") == "biggrain-sweep":
+            for off in range(0, v.size, 8192 * 512):  # one request per grain, front to back
+                v.seek(off + 512)
+                v.read(REQ)
     elif kind == "vmdk-desc":
         from dissect.hypervisor.disk.vmdk import DiskDescriptor
 
@@ -487,7 +517,7 @@ def hdd_cycle_case(spec):
         shutil.rmtree(d, ignore_errors=True)
 
 
-def hyperv_cycle(variant) -> bytes:
+def hyperv_cycle(variant, delta=0) -> bytes:
     data = bytearray(c12.base_hyperv()[0])
     count = struct.unpack_from("<I", data, 0x2004)[0]
 
@@ -496,12 +526,12 @@ def hyperv_cycle(variant) -> bytes:
 
     free = count - 1  # the builder leaves trailing unallocated entries
     if variant == "self":
-        entry(free, 1, 0x2000, 0x1000)
+        entry(free, 1, 0x2000 + delta, 0x1000)
     elif variant == "mutual":
         other = len(data)
         data.extend(bytes(0x1000))
         struct.pack_into("<II", data, other, 0x01110001, 1)
-        struct.pack_into("<BIQIB", data, other + 8, 1, 0, 0x2000, 0x1000, 1)
+        struct.pack_into("<BIQIB", data, other + 8, 1, 0, 0x2000 + delta, 0x1000, 1)
         entry(free, 1, other, 0x1000)
     elif variant == "chain-back":
         a, b = len(data), len(data) + 0x1000
@@ -509,7 +539,7 @@ def hyperv_cycle(variant) -> bytes:
         struct.pack_into("<II", data, a, 0x01110001, 1)
         struct.pack_into("<BIQIB", data, a + 8, 1, 0, b, 0x1000, 1)
         struct.pack_into("<II", data, b, 0x01110001, 1)
-        struct.pack_into("<BIQIB", data, b + 8, 1, 0, a, 0x1000, 1)
+        struct.pack_into("<BIQIB", data, b + 8, 1, 0, a + delta, 0x1000, 1)
         entry(free, 1, a, 0x1000)
     elif variant == "parent-self":
         # first entry of key table 1 (offset 0x300A): a node whose parent is itself
@@ -567,7 +597,7 @@ def check(spec) -> Outcome:
         changed = True
     else:
         if "hv_cycle" in spec:
-            mutated = hyperv_cycle(spec["hv_cycle"])
+            mutated = hyperv_cycle(spec["hv_cycle"], spec.get("hv_delta", 0))
             out.cls("crafted-cycle")
         elif spec.get("craft") == "l1-to-header":
             l1_off = struct.unpack_from(">Q", data, 40)[0]
@@ -575,6 +605,10 @@ def check(spec) -> Outcome:
             out.cls("crafted")
         elif spec.get("craft") == "region-to-itself":
             mutated = apply_ops(data, [["set", 196608 + 32, 8, 196608, "little"], ["set", 196608 + 64, 8, 196608, "little"]])
+            out.cls("crafted")
+        elif spec.get("craft") == "biggrain-sweep":
+            mutated = biggrain_vmdk()
+            unit = 8192 * 512
             out.cls("crafted")
         elif spec.get("raw_b64") is not None:
             import base64
